@@ -379,7 +379,7 @@ func c10run(c *Ctx, cx *c10env, seq []c10op, trans map[string]bool) (nontriv boo
 }
 
 func runC10(c *Ctx) {
-	c.R.Rule("operation sequences over the envelope API (17 operations incl. insert of valid / valid-without-code / invalid documents, calculate, edit, sign with two keys, unsign, stamps, links, validate, verify, round trip, parse of a serialised form whose sigs holds \"\", null or a truncated JWS): exhaustive up to length 4 (quick) / 5 (thorough) from a new envelope, plus random sequences of length 6-15; non-trivial = the history contains a sign, round-trip or parse step; distinct by sequence")
+	c.R.Rule("operation sequences over the envelope API (18 operations incl. reinsert of the extracted, edited document, insert of valid / valid-without-code / invalid documents, calculate, edit, sign with two keys, unsign, stamps, links, validate, verify, round trip, parse of a serialised form whose sigs holds \"\", null or a truncated JWS): exhaustive up to length 4 (quick) / 5 (thorough) from a new envelope, plus every history insert → a → sign → b → observer, plus random sequences of length 6-15; non-trivial = the history contains a sign, round-trip or parse step; distinct by sequence")
 	c.R.Assume("reference model: outcome of each step is a function of (document present/valid for signing, digest matches, signatures present, signed headers contained); a failed Sign removes all signatures (as documented in Envelope.Sign)")
 	docs, err := c10docs()
 	if err != nil {
@@ -446,6 +446,25 @@ func runC10(c *Ctx) {
 		})
 	}
 	maxLen := insLen
+	// all histories insert → a → sign(k1) → b → c with any a, b and an observing
+	// c: what is done before and after signing, seen by every observer
+	{
+		observers := []c10op{opValidate, opVerifyK1, opSignK2, opRoundtrip, opSignK1, opCalculate}
+		count := n * n * len(observers)
+		total += count
+		c.Parallel(chunks, func(ci int) {
+			trans := results[ci]
+			var cnt, nt int64
+			for s := ci; s < count; s += chunks {
+				seq := []c10op{opInsertValid, c10op(s % n), opSignK1, c10op((s / n) % n), observers[s/(n*n)]}
+				cnt++
+				if c10run(c, cx, seq, trans) {
+					nt++
+				}
+			}
+			c.R.Cases(cnt, nt)
+		})
+	}
 	// random longer histories
 	nRand := c.N(3000, 100000)
 	c.Parallel(chunks, func(ci int) {
